@@ -24,7 +24,13 @@ def gen_case(rng, kind):
     model, table = c04.gen_case(rng, store)
     model.header = rng.choice([0, 0, 1])
     if kind == "fixed":
-        model.line_delimiter = rng.choice(["lf", "cr", "crlf", "any", None])
+        model.line_delimiter = rng.choice(["lf", "cr", "crlf", "any", None, "none", "none"])
+        if rng.random() < 0.25:
+            # blank is not an allowed character: values shorter than the field cannot be written in a way the reader accepts
+            from cpverif.models import rangemodel as R
+
+            model.allowed_text = rng.choice(["33...", "33...126, 160..."])
+            model.fmt = dict(model.fmt, allowed=R.parse_int_range(model.allowed_text))
     if rng.random() < 0.4:
         f = rng.choice(model.fields)["name"]
         model.checks.append({"desc": "dist", "type": "DistinctCount", "field": f, "op": rng.choice(OPS), "n": rng.randint(0, 4)})
@@ -54,6 +60,8 @@ def encode(model, row):
         return [storage.delimited_text([row], model.quote, model.escape)]
     text = "".join(cell.ljust(w) for cell, w in zip(row, model.widths()))
     ld = model.line_delimiter
+    if ld == "none":
+        return [text]
     if ld in (None, "any"):
         return [text + d for d in ("\n", "\r", "\r\n")]
     return [text + {"lf": "\n", "cr": "\r", "crlf": "\r\n"}[ld]]
